@@ -355,6 +355,9 @@ func c04(x *mon.Ctx) {
 				}
 			}
 		}
+		for i := 0; i < 100000; i++ { // module versions >= 10: sampled
+			jobs = append(jobs, job{2, []absLevel{abs[r2.Intn(len(abs))], abs[r2.Intn(len(abs))]}, mods2[r2.Intn(len(mods2))], "match", "2-level/tee1=2"})
+		}
 	}
 	x.Each(len(jobs), func(i int) {
 		j := jobs[i]
